@@ -844,7 +844,8 @@ pub fn generate(seed: u64, case: u64, max_steps: usize) -> Ran {
     if r.chance(1, 30) {
         allow.push((Arg::Bad, None));
     }
-    let channels = match r.below(4) {
+    let channels = match r.below(5) {
+        4 => vec![(1u64, 9u64), (2, 95)], // the counterparty's ids nest: "channel-9" is a prefix of "channel-95"
         0 => vec![(1u64, 7u64)],
         1 => vec![(1, 7), (7, 1)],
         2 => vec![(1, 15), (15, 3)],
@@ -951,7 +952,16 @@ pub fn generate(seed: u64, case: u64, max_steps: usize) -> Ran {
             };
             let (src_port, src_chan, denom) = match r.below(14) {
                 0 => (0, remote, PDen::Voucher { port: 1, chan: remote, base: Base::Key(key) }),
-                1 => (0, remote, PDen::Voucher { port: 0, chan: remote + 1, base: Base::Key(key) }),
+                1 => {
+                    // a voucher of another channel: the next id, an id that extends ours by a digit, or the other channel's
+                    let other = w.remote_of.values().cloned().find(|x| *x != remote).unwrap_or(remote + 1);
+                    let chan = match r.below(3) {
+                        0 => remote + 1,
+                        1 => remote * 10 + 5,
+                        _ => other,
+                    };
+                    (0, remote, PDen::Voucher { port: 0, chan, base: Base::Key(key) })
+                }
                 2 => (0, remote, PDen::Malformed(r.below(3) as u8)),
                 3 => (0, remote, PDen::Voucher { port: 0, chan: remote, base: Base::BadCw20 }),
                 4 => (0, remote, PDen::Voucher { port: 0, chan: remote, base: Base::Key(2 * (5 + r.below(3))) }),
@@ -1005,6 +1015,15 @@ pub fn generate(seed: u64, case: u64, max_steps: usize) -> Ran {
             let m = Step::Migrate { h, t, gas: match r.below(5) { 0 | 1 => None, 2 => Some(90_000 + r.below(8) * 5000), _ => Some(70_000 + r.below(3) * 1000) } };
             run_step(&mut w, &m, &mut ran);
             ran.trace.steps.push(m);
+            if r.chance(1, 2) {
+                // holdings drift from the books, then the (now current) contract is migrated once more
+                let d = Step::Donate { k: *r.pick(&w.keys), n: Uint128::new(1 + r.below(40) as u128) };
+                run_step(&mut w, &d, &mut ran);
+                ran.trace.steps.push(d);
+                let m2 = Step::Migrate { h, t, gas: if r.chance(1, 2) { Some(90_000 + r.below(8) * 5000) } else { None } };
+                run_step(&mut w, &m2, &mut ran);
+                ran.trace.steps.push(m2);
+            }
         }
     }
     ran
